@@ -299,6 +299,13 @@ def _scan(res, unit):
     muts = [sorted(set(writes) | set(carry_cols))]
     if not carry_cols:
       muts.insert(0, [])     # carried collections are always passed as mutable
+    # broadcast collections that the body only reads, passed as mutable: first the non-params
+    # ones (a broadcast group of mixed mutability), then all of them
+    ro_bc = [c for c, r in roles.items() if r == 'bc' and c not in writes]
+    for extra in ([c for c in ro_bc if c != 'params'], ro_bc):
+      m2 = sorted(set(muts[-1]) | set(extra))
+      if extra and m2 not in muts:
+        muts.append(m2)
     for mut in muts:
       bc_written = [c for c in mut if roles.get(c) == 'bc' and c in writes]
       res['evals'] += 1
